@@ -299,9 +299,6 @@ func (c *Client) Send(e protocol.ChunkEncoder) error {
 		if chunk, err = e.Chunk(); err != nil {
 			return err
 		}
-
-		c.ackLock.Lock()
-		defer c.ackLock.Unlock()
 	}
 
 	// Encode completely before touching the connection: a message that cannot
@@ -311,6 +308,12 @@ func (c *Client) Send(e protocol.ChunkEncoder) error {
 	if err = msgp.Encode(&buf, e); err != nil {
 		return err
 	}
+
+	// One sender at a time, with or without acks: the bytes of concurrent
+	// sends must not interleave on the connection, and at most one send may be
+	// waiting for its ack.
+	c.ackLock.Lock()
+	defer c.ackLock.Unlock()
 
 	if err = writeAll(c.session.Connection, buf.Bytes()); err != nil || !c.RequireAck {
 		return err
@@ -344,6 +347,9 @@ func (c *Client) SendRaw(m []byte) error {
 	if !c.session.TransportPhase {
 		return errors.New("session handshake not completed")
 	}
+
+	c.ackLock.Lock()
+	defer c.ackLock.Unlock()
 
 	return writeAll(c.session.Connection, m)
 }
